@@ -282,11 +282,21 @@ def _slope(x):
     return float(np.sum(tt * (x - x.mean())) / den) if den > 0 else 0.0
 
 
+def value_range(x):
+    """A user feature without an ``axis`` argument."""
+    return float(np.max(x) - np.min(x))
+
+
+def last_minus_first(x):
+    return float(x[-1] - x[0])
+
+
 def o_rife(case, ctx):
     from sktime.transformations.panel.summarize import RandomIntervalFeatureExtractor
 
     cells, X = panel(case)
-    feats = {"default": None, "mean_std": [np.mean, np.std], "mean_std_max": [np.mean, np.std, np.max]}[case["features"]]
+    feats = {"default": None, "mean_std": [np.mean, np.std], "mean_std_max": [np.mean, np.std, np.max],
+             "user": [value_range, np.mean, last_minus_first]}[case["features"]]
     t = RandomIntervalFeatureExtractor(n_intervals=case["k"], features=feats, random_state=case["seed"] % 1000)
     ctx.mark_nontrivial(feats is not None)
     r = run(t, X, case=case)
@@ -568,7 +578,7 @@ def subchecks():
         S("interval_segmenter", o_iseg, panel_cases(max_c=1, min_len=4, extra={"intervals_kind": st.sampled_from(["int", "array"]), "k": i(1, 6)})),
         S("random_interval_segmenter", o_riseg, panel_cases(max_c=1, min_len=4, extra={"k": i(1, 4)})),
         S("sliding_window_segmenter", o_swseg, panel_cases(max_c=1, extra={"window_length": i(1, 8)})),
-        S("random_interval_features", o_rife, panel_cases(max_c=1, min_len=4, extra={"k": i(1, 4), "features": st.sampled_from(["default", "mean_std", "mean_std_max"])})),
+        S("random_interval_features", o_rife, panel_cases(max_c=1, min_len=4, extra={"k": i(1, 4), "features": st.sampled_from(["default", "mean_std", "mean_std_max", "user", "user"])})),
         S("row_transformers", o_rows, panel_cases()),
         S("row_count_and_order", o_rowcount, panel_cases(min_len=12), q=100),
         S("imputer", o_imputer, imputer_cases(), q=800),
